@@ -23,7 +23,7 @@ ASSUMPTIONS = ["PIPS is an oracle: only runs reporting success are judged; resul
                "power flow (runpp / rundcpp) convergence is an oracle for the reproduction run",
                "sqrt(3) enters the line rating as a positive number s3 (cancels in the theorem); the harness passes numpy's value"]
 TRUSTED = ["white-box capture by swapping the module attribute pandapower.optimal_powerflow.opf in the harness process"]
-KINDS = []   # both recorded defects are repaired in /repo; their witnesses stay in corpus/C16 and must pass
+KINDS = ["C16-default-limits-swamp-convergence-test"]   # the two dcline / fixed-gen defects are repaired in /repo (corpus witnesses must pass)
 KIND_COQ = {"gen": "KGen", "ext_grid": "KExt", "sgen": "KSgen", "load": "KLoad", "storage": "KStorage"}
 TOLP, TOLV, TOLL = 1e-4, 1e-5, 5e-2
 
@@ -196,7 +196,35 @@ def guards(net):
     return []
 
 
-def check_constraints(ctx, net, ac, desc):
+def missing_limits(net):
+    """guard of the recorded finding: some limit column of an OPF variable table holds NaN, so the default limit 1e9 is used"""
+    return any(bool(net[t][c].isnull().any()) for t in ("ext_grid", "gen", "sgen", "load", "storage") if len(net[t])
+               for c in ("min_p_mw", "max_p_mw", "min_q_mvar", "max_q_mvar") if c in net[t].columns
+               and (t in ("ext_grid", "gen") or bool(net[t].controllable.astype(bool).any())))
+
+
+def with_finite_limits(net):
+    n2 = copy.deepcopy(net)
+    for t in ("ext_grid", "gen", "sgen", "load", "storage"):
+        for c, v in (("min_p_mw", -1e3), ("max_p_mw", 1e3), ("min_q_mvar", -1e3), ("max_q_mvar", 1e3)):
+            if c in n2[t].columns and len(n2[t]):
+                n2[t][c] = n2[t][c].fillna(v)
+    return n2
+
+
+class _Quiet:
+    """collects violations of a control run without reporting them"""
+    def __init__(self):
+        self.v = []
+
+    def violation(self, kind, what, case, source="oracle"):
+        self.v.append((kind, what))
+
+    def count(self, *a, **k):
+        pass
+
+
+def check_constraints(ctx, net, ac, desc, init="flat", control=True):
     """declared constraints on the result tables"""
     bad = []
     if ac:
@@ -270,6 +298,16 @@ def check_constraints(ctx, net, ac, desc):
         law = (-pt) - (pf * k - r.loss_mw) if r.p_mw > 0 else (-pf) - (pt * k - r.loss_mw)
         if abs(law) > 3e-4:
             bad.append(("spec", "dcline %d: p_from=%.6f p_to=%.6f violate the transfer law of the dcline (residual %.2e)" % (r.Index, pf, pt, law)))
+    if bad and control and missing_limits(net):
+        # recorded finding: with a missing limit the default 1e9 enters the slack variables and PIPS' relative feasibility
+        # test accepts points that violate constraints.  Classified only if the SAME problem with the missing limits
+        # replaced by +-1000 (never binding here) converges to a result without any violation.
+        n2 = with_finite_limits(net)
+        ok2, _ = run_opf(n2, ac, init)
+        if ok2:
+            q = _Quiet()
+            if not check_constraints(q, n2, ac, desc, init, control=False):
+                bad = [(KINDS[0] if k == "spec" else k, w + " [a limit column is NaN; with +-1000 instead the result respects all limits]") for k, w in bad]
     for kind, what in bad:
         ctx.violation(kind, what, desc)
     return bad
@@ -326,11 +364,11 @@ def reproduce(ctx, net, ac, desc, Fg):
     # weaker: observed 4e-3 MW at the slack bus; the tolerance is 1e-2 MW then)
     lim_cols = [net[t][c] for t in ("ext_grid", "gen", "sgen", "load", "storage") for c in ("min_p_mw", "max_p_mw", "min_q_mvar", "max_q_mvar")
                 if c in net[t].columns and len(net[t])]
-    loose = any(bool(col.isnull().any()) for col in lim_cols)
+    loose = missing_limits(net)
     tp = 1e-2 if loose else 3e-3
     cmp_ = [("res_bus", "va_degree", 3e-3), ("res_line", "p_from_mw", tp), ("res_line", "p_to_mw", tp), ("res_ext_grid", "p_mw", tp)]
     if ac:
-        cmp_ += [("res_bus", "vm_pu", 1e-4), ("res_line", "q_from_mvar", tp)]
+        cmp_ += [("res_bus", "vm_pu", 5e-4 if loose else 1e-4), ("res_line", "q_from_mvar", tp)]
     if len(net.dcline):
         cmp_ += [("res_dcline", "p_to_mw", tp)]
     if len(net.trafo):
@@ -340,6 +378,8 @@ def reproduce(ctx, net, ac, desc, Fg):
             continue
         a = net[tab][col].values.astype(float)
         b = n2[tab][col].values.astype(float)
+        if col == "va_degree":   # angles are compared modulo 360 degrees
+            b = a + ((b - a + 180.0) % 360.0 - 180.0)
         m = ~(np.isnan(a) & np.isnan(b))
         if m.any():
             d = float(np.nanmax(np.abs(a[m] - b[m]) / tol)) if not np.isnan(np.abs(a[m] - b[m])).all() else 0.0
@@ -376,7 +416,7 @@ def one_case(ctx, net, ac, tag, terms, pend, sample=False, init="flat"):
                                                "impl_gen_rows": cap["gen"][:, :10].tolist() if cap else None} if sample else None)
     if not ok:
         return
-    check_constraints(ctx, net, ac, desc)
+    check_constraints(ctx, net, ac, desc, init)
     reproduce(ctx, net, ac, desc, Fg)
 
 
@@ -439,15 +479,15 @@ def corpus_nets():
         for f in sorted(os.listdir(d)):
             if f.endswith(".json"):
                 rec = json.load(open(os.path.join(d, f)))
-                out.append((f, pp.from_json_string(rec["net"]), rec.get("ac", True)))
+                out.append((f, pp.from_json_string(rec["net"]), rec.get("ac", True), rec.get("init", "flat")))
     return out
 
 
 def run(ctx):
     rng = ctx.rng
     terms, pend = [], []
-    for name, net, ac in corpus_nets():
-        one_case(ctx, net, ac, "corpus", terms, pend)
+    for name, net, ac, init in corpus_nets():
+        one_case(ctx, net, ac, "corpus", terms, pend, init=init)
         ctx.count("corpus_cases")
     for k in range(ctx.n(70, 800)):
         net = gen_case(rng, k)
